@@ -4,6 +4,8 @@ CONSTANTS
   MaxPings = 2
   AsCoded = TRUE
   BadId = FALSE
+  AnyPort = FALSE
+  Layout = 1
   Pingers = {1, 3}
   Toggle = {2, 4, 5}
 INVARIANT UnicastToResolvedMac
